@@ -323,6 +323,38 @@ def run(chk):
         cases.append(((None, None), elw, ("id",), ("strided", [None, 1], None)))
         cases.append(((None, None, 1), elw, ("id",), ("strided", [1, None, 1], 0)))
         cases.append(((4, None), elw, ("strided", [None, 1], 7), ("id",)))
+    # seeded family: random shapes, random tilings (equal tile bounds on both sides), independent random nesting orders
+    # of the tile dimensions on each side, optional gap and offset, strided permutations
+    def splits(d):
+        res = [[d]]
+        for a in range(2, d):
+            if d % a == 0:
+                res.append([d // a, a])
+        return res
+
+    def rand_layout(shape, bounds):
+        r = rnd.random()
+        if r < 0.2:
+            return ("id",)
+        if r < 0.4:
+            perm = list(range(len(shape)))
+            rnd.shuffle(perm)
+            strides = [0] * len(shape)
+            acc = 1
+            for d in perm:
+                strides[d] = acc
+                acc *= shape[d]
+            return ("strided", strides, rnd.choice([0, 0, 3]))
+        flat = [(d, k) for d, bs in enumerate(bounds) for k in range(len(bs))]
+        rnd.shuffle(flat)
+        return ("tsl", bounds, tiled_steps(bounds, flat, pad=rnd.choice([0, 0, 2])), rnd.choice([0, 0, 5]))
+
+    for _ in range(50 if quick else 500):
+        shape = tuple(rnd.choice([1, 2, 3, 4, 6, 8]) for _ in range(rnd.choice([1, 2, 2, 3])))
+        if int(np.prod(shape)) > 96:
+            continue
+        bounds = [rnd.choice(splits(d)) for d in shape]
+        cases.append((shape, rnd.choice([8, 32] if quick else [8, 16, 32, 64]), rand_layout(shape, bounds), rand_layout(shape, bounds)))
     chk.add_results("copy_lowering", pmap(case_copy, cases, chunks=2))
     chk.bounds = dict(cases=len(cases), ranks="1..4", widths="8/32 quick, 8/16/32/64 thorough", dynamic_sizes=f"1..{NMAX} tiles", elements="<= 120 static")
     chk.outside = ["dynamic tile steps inside tsl layouts", "overlapping source/destination", "sizes beyond the stated ranges"]
